@@ -6,11 +6,24 @@ NAME_ATOMS = [b"foo", b"bar", b"a", b"b", b"z", b"x9", b"9x", b"my-svc", b"a--b"
 KEY_ATOMS = [b"k", b"key", b"a", b"b", b"env", b"a.b", b"a-b", b"9k", b"t\xc3\xa9", b"h\xef\xbf\xbdst", b"le", b"quantile", b"__name__",
              b"-_x", b"K_1", b"with space", b"job", b"instance"]
 VAL_ATOMS = [b"v", b"1", b"prod", b"a=b", b"with space", b"\xf0\x9f\x98\x80", b"x.y", b"-", b"=", b"9", b"v_v", b"%s", b"a b ", b" ", b"\tv"]
+# one or two code points of every Unicode class a hand-rolled ASCII test could be "simplified" into (unicode.IsDigit,
+# IsLetter, IsSpace, ...), and code points whose low byte is a delimiter of the line syntax (U+043A ':' U+043D '=' U+017C '|'
+# U+0123 '#' U+012C ',' U+0140 '@' U+015B '[' U+015D ']')
+UNICODE_ATOMS = [x.encode("utf-8") for x in ("\u0663", "\uff11", "\u0968", "\u2167", "\u00b2", "\u00c9", "\u043d", "\u043a", "\u4e3d", "\u4e3a",
+                                              "\u0301", "\u203f", "\u00a0", "\u017c", "\u0123", "\u012c", "\u0140", "\u015b", "\u015d", "\u212a")]
+# names and values that contain bytes of the sample syntax itself
+SYNTAX_NAMES = [b"a|#b", b"p|q", b"x@y", b"|#n", b"n|#", b"m|c", b"q|@0.5"]
+LONG_NAME = b"long" + b"n" * 121                                         # 125 bytes: beyond any plausible fixed buffer
+NAME_ATOMS += [b"cpu" + u for u in UNICODE_ATOMS[:6]] + UNICODE_ATOMS[6:] + [LONG_NAME, b"x" * 300]
+KEY_ATOMS += ["\u0440\u0435\u0433\u0438\u043e\u043d".encode(), "\u043a\u043b\u0430\u0441\u0442\u0435\u0440".encode()] + [b"shard" + u for u in UNICODE_ATOMS] + [b"K" * 70]
+VAL_ATOMS += UNICODE_ATOMS[:4] + [b"v" * 200]
 TYPES = [b"c", b"g", b"ms", b"h", b"d"]
 BAD_TYPES = [b"s", b"x", b"", b"cc", b"C", b"m", b"kv"]
 NUMS = [b"1", b"0", b"2.5", b"-3", b"+4", b"100", b"1e3", b"0.001", b"-0", b"+0", b".5", b"5.", b"1_000", b"0x1p-2",
         b"1e308", b"1e-320", b"4.9e-324", b"inf", b"-inf", b"+Inf", b"Infinity", b"nan", b"NaN", b"1e400", b"-1e400",
-        b"1e19", b"18446744073709551615", b"9007199254740993", b"3.0000000000000004"]
+        b"1e19", b"18446744073709551615", b"9007199254740993", b"3.0000000000000004",
+        b"1e+3", b"2.5E+1", b"0x1p+4", b"1e+06", b"1E3", b"-1e+2", b"+1e+01", b"007", b"1.e1", b".5e1", b"1" * 40, b"-0.0", b"1e-400",
+        b"0.1" + b"0" * 60 + b"1"]
 GOOD_NUMS = [x for x in NUMS if x not in (b"1e400", b"-1e400", b"1_000")]
 BAD_NUMS = [b"", b"x", b"1,2", b"--1", b"1e", b"0x", b"1 ", b" 1", b"one", b"1.2.3", b"+", b"-"]
 # sampling rates: 1/r never exceeds a few thousand events
@@ -85,7 +98,7 @@ def c09_datum(rnd):
     # do not split inside a UTF-8 sequence
     while cut < len(nm) and (nm[cut] & 0xC0) == 0x80:
         cut += 1
-    ts = [tag(rnd) for _ in range(rnd.randint(1, 4))]
+    ts = [tag(rnd) for _ in range(rnd.randint(1, 4) if rnd.random() < 0.97 else rnd.randint(10, 24))]
     if ts[-1] == ("bare", b""):
         ts[-1] = ("kv", b"k", b"v")
     if rnd.random() < 0.25:
@@ -112,7 +125,7 @@ def c09_renderings(d):
 
 def multi_datum(rnd):
     """(name, [samples], [ok flags]) for C10: 1-6 samples, malformed in any position."""
-    nm = name(rnd, exotic=False)
+    nm = name(rnd, exotic=False) if rnd.random() < 0.8 else rnd.choice(SYNTAX_NAMES + [LONG_NAME])
     n = rnd.randint(1, 6)
     ss, oks = [], []
     for i in range(n):
@@ -125,7 +138,7 @@ def multi_datum(rnd):
 
 
 def extagg_datum(rnd):
-    nm = name(rnd, exotic=False)
+    nm = name(rnd, exotic=False) if rnd.random() < 0.85 else rnd.choice(SYNTAX_NAMES + [LONG_NAME])
     vals = [rnd.choice(NUMS if rnd.random() < 0.8 else BAD_NUMS) for _ in range(rnd.randint(2, 6))]
     t = rnd.choice([b"ms", b"h", b"d"] * 3 + [b"c", b"g", b"s", b"x"])
     suffix = t
